@@ -85,6 +85,31 @@ func VH_C13_StdlibLast(na, nb int) {
 	vAssert(b.less(a), "user code does not sort before stdlib-only signature")
 }
 
+// VH_C13_StdlibLastDeep: the same contract for deep stacks: n frames of
+// standard library code (n around 16 and 32, where a packed or narrow counter
+// would overflow) against a two-frame signature holding user code.
+//
+//verif:prop C13
+//verif:param n 15..17,31..33
+//verif:param nb 1..2
+//verif:summarize (*Signature).less (*Stack).less
+func VH_C13_StdlibLastDeep(n, nb int) {
+	a := &Signature{}
+	for i := 0; i < n; i++ {
+		c := Call{Location: Stdlib}
+		c.Func.Complete = "f"
+		c.DirSrc = "d"
+		c.Line = vInt("a.line" + string(rune('A'+i)))
+		a.Stack.Calls = append(a.Stack.Calls, c)
+	}
+	a.State = "s"
+	b := vhSig("b", nb)
+	vAssume(vhHasUserCode(b))
+	vReach("deep stdlib-only vs user code")
+	vAssert(vNot(a.less(b)), "a deep stdlib-only signature sorts before user code")
+	vAssert(b.less(a), "user code does not sort before a deep stdlib-only signature")
+}
+
 func vhMainCount(s *Signature) int {
 	n := 0
 	for i := range s.Stack.Calls {
